@@ -77,5 +77,6 @@ func ruleDrains(c *Ctx) {
 func runC02(c *Ctx) {
 	ruleDotTable(c)
 	ruleDotStructure(c)
+	ruleDataSource(c) // a second buffer between the connection and the automaton over-reads past the end marker
 	ruleDrains(c)
 }
